@@ -18,9 +18,13 @@ impl<'a> TlvSetBuilder<'a> {
     /// Add a TLV to the builder.
     ///
     /// # Errors
-    /// Fails when the remaining buffer is too small for the TLV, or
-    /// when the TLV itself is larger than 2^16 bytes.
+    /// Fails when the remaining buffer is too small for the TLV, when the
+    /// TLV itself is larger than 2^16 bytes, or when its value has an odd
+    /// length (such a set could not be parsed back).
     pub fn add(&mut self, tlv: &Tlv<'_>) -> Result<(), Error> {
+        if !tlv.value.len().is_multiple_of(2) {
+            return Err(Error::Invalid);
+        }
         tlv.serialize(&mut self.buffer[self.used..])?;
         self.used += tlv.wire_size();
         Ok(())
@@ -71,7 +75,7 @@ impl<'a> TlvSet<'a> {
         let original = buffer;
         let mut total_length = 0;
 
-        while buffer.len() > 4 {
+        while buffer.len() >= 4 {
             let _tlv_type = TlvType::from_primitive(u16::from_be_bytes([buffer[0], buffer[1]]));
             let length = u16::from_be_bytes([buffer[2], buffer[3]]) as usize;
 
@@ -114,7 +118,7 @@ impl<'a> Iterator for TlvSetIterator<'a> {
     type Item = Tlv<'a>;
 
     fn next(&mut self) -> Option<Self::Item> {
-        if self.buffer.len() <= 4 {
+        if self.buffer.len() < 4 {
             debug_assert_eq!(self.buffer.len(), 0);
             return None;
         }
